@@ -1,6 +1,7 @@
 """C03 — compile accepts exactly the JMESPath language (structural clauses)."""
 import re
 
+from ..analysis import strip_through
 from ..analysis import (Branches, Origins, blocks_separate, cfg_cycles, edge_dominates, edges_dominate, fmt_terms,
                         reach_avoiding, term_mentions)
 from ..charclass import CharFlow, ISet, chars, rng
@@ -638,18 +639,29 @@ def check_lexer(ctx, lib):
                     neg = o.of_operand(t["args"][-1])
                     extra = ":neg" if neg == {("const", 1)} else ":pos"
                 add(("scan", name + extra), cs)
-        elif c.endswith("::push_back"):
-            ts = o.of_operand(t["args"][1])
-            toks = set()
-            for x in ts:
-                if x[0] == "agg" and x[1] == "tuple":
+    # a token written out for a character class (`'.' => Dot`): the Token value is built in the arm of that class — pushed
+    # there or handed to one shared push — and is not one of alt()'s two candidates; every token so built reaches a push
+    pushed = set()
+    for bb, t in b.calls():
+        if t["callee"].endswith("::push_back"):
+            for x in o.of_operand(t["args"][1]):
+                if x[0] == "agg" and x[1] == "tuple" and len(x[2]) == 2:
                     for y in x[2][1]:
                         if y[0] == "agg" and y[1].startswith(TOKEN + "::"):
-                            toks.add(y[1].split("::")[-1])
-            if len(toks) == 1 and cs != ISet.full():
-                tk = next(iter(toks))
-                if tk not in ("Eof",):
-                    add(("token", tk), cs)
+                            pushed.add(y[1].split("::")[-1])
+    alt_cands = set()
+    for action, cs in table.items():
+        if action[0] == "alt":
+            alt_cands |= {(repr(cs), action[2]), (repr(cs), action[3])}
+    for bb, i, st in b.stmts():
+        if st["k"] == "assign" and st["rv"]["k"] == "agg" and st["rv"].get("adt") == TOKEN and not st["rv"]["ops"]:
+            cs = cf.at(bb)
+            tk = st["rv"]["variant"]
+            if cs.is_empty() or cs == ISet.full() or tk == "Eof" or (repr(cs), tk) in alt_cands:
+                continue
+            if tk not in pushed:
+                ctx.bad(rule, f"char-map:unpushed:{tk}", f"token {tk} is built for {cs!r} but never pushed", b.span)
+            add(("token", tk), cs)
     # error / whitespace classes: blocks that build the "Invalid character" error or continue
     errs = ISet.empty()
     for bb, i, s in b.stmts():
@@ -686,7 +698,8 @@ def check_lexer(ctx, lib):
     ctx.check(ws == want_ws, rule, "char-map:whitespace", f"skipped characters are exactly space, newline, tab, carriage return (found {ws!r})", b.span)
     ctx.floor(rule, n, 23, "character -> action rows")
     # '=' must be followed by '=': the Eq token is pushed only when a second character was read and equals '='
-    eq_push = [bb for bb, t in b.calls() if t["callee"].endswith("::push_back") and cf.at(bb) == chars("=")]
+    eq_push = [bb for bb, i, st in b.stmts() if st["k"] == "assign" and st["rv"]["k"] == "agg" and st["rv"].get("adt") == TOKEN and
+               st["rv"]["variant"] == "Eq" and cf.at(bb) == chars("=")]
     ok = len(eq_push) == 1
     detail = ""
     if ok:
@@ -803,6 +816,12 @@ def check_scanners(ctx, lib):
     cl = ctx.fn(L + "consume_lbracket", rule=rule)
     if cl is not None:
         ok, detail = peeked_char_table(lib, cl, {"]": "Flatten", "?": "Filter"}, "Lbracket")
+        if not ok:
+            nt = next_if_table(lib, cl)
+            if nt is not None:
+                tok = lambda v: {("agg", TOKEN + "::" + v, (), ())}
+                ok = nt == {"]": tok("Flatten"), "?": tok("Filter"), "<other>": tok("Lbracket")}
+                detail = "next_if form: " + str({k: fmt_terms(v) for k, v in nt.items()})
         ctx.check(ok, rule, "lbracket", f"'[' followed by ']' is Flatten, by '?' is Filter (both consumed), otherwise Lbracket ({detail})", cl.span)
     # alt
     al = ctx.fn(L + "alt", rule=rule)
@@ -823,6 +842,9 @@ def check_scanners(ctx, lib):
                         if c[0] == "bin" and c[1] == "Eq" and ("param", 2) in (c[2], c[3]) and edge_dominates(al, (sb, be[0]), nexts[0]):
                             good = True
             ok = good
+        if not ok:
+            nt = next_if_table(lib, al)
+            ok = nt == {("param", 2): {("param", 3)}, "<other>": {("param", 4)}}
         ctx.check(ok, rule, "alt", "alt(expected, a, b): consumes the next character and yields a only if it equals `expected`, else yields b", al.span)
     # '=' must be followed by '='
     tk = lib.fn(L + "tokenize")
@@ -858,19 +880,18 @@ def check_scanners(ctx, lib):
             continue
         clos = lib.closures_of(fn)
         ok = False
+        from ..analysis import is_failure_term, results_avoiding_edge, success_edge
         for c in clos:
             co = Origins(c, lib)
             cbr = Branches(c, co)
             fj = [(bb, t) for bb, t in c.calls() if t["callee"] == "variable::Variable::from_json"]
             if len(fj) != 1:
                 continue
-            for sb, sw in cbr.switches():
-                ve = cbr.variant_edges(sb)
-                if ve and ve["adt"] == "std::result::Result" and all(x[0] == "call" and x[1] == "variable::Variable::from_json" for x in ve["scrutinee"]):
-                    err_t = ve["edges"].get("Err", ve["otherwise"])
-                    reg = only_via(c, (sb, err_t))
-                    res = region_aggs(c, reg, "std::result::Result")
-                    ok = any(s["rv"]["variant"] == "Err" for _, _, s in res) and not any(s["rv"]["variant"] == "Ok" for _, _, s in res)
+            # however the decoder's answer is taken apart (match, `?`, map/map_err): when it failed, the closure fails
+            se = success_edge(c, co, cbr, lambda ts: all(strip_through(x)[0] == "call" and strip_through(x)[1] == "variable::Variable::from_json" for x in ts))
+            if se is not None:
+                res = results_avoiding_edge(c, lib, (se[0], se[1]))
+                ok = bool(res) and all(is_failure_term(x) for x in res)
         ctx.check(ok, rule, f"invalid-{what.replace(' ', '-')}", f"a {what} whose contents are not valid JSON is a parse error", bq.span)
     # ... and "valid JSON" means the whole contents: the parse routine itself rejects trailing characters (shared with C08)
     from .c08 import check_from_json
@@ -923,6 +944,74 @@ def check_number_lexing(ctx, lib, rule):
             errs = [s for _, _, s in region_aggs(nn, nn.reachable(), "std::result::Result") if s["rv"]["variant"] == "Err"]
             ok = ok and len(errs) >= 1
         ctx.check(ok, rule, "minus-needs-nonzero-digit", "'-' must be followed by a digit other than '0', otherwise a parse error", nn.span)
+
+
+def next_if_table(lib, b):
+    """For a scanner written with `self.iter.next_if(|&(_, c)| c == K)`: {scenario: result terms} where a scenario is one of
+    the keys K (a character, or a parameter of b) meaning "the next character equals K", or "<other>" (a different character
+    or the end of input).  next_if consumes the character exactly when it answers Some, so nothing else may touch the
+    iterator.  None if the function is not of that form."""
+    from ..decision import Undecided, Walker
+    o = Origins(b, lib)
+    sites = {}
+    for bb, t in b.calls():
+        c = t["callee"]
+        if c.endswith("Peekable::<I>::next_if"):
+            if o.of_operand(t["args"][0]) != {("field", ("param", 1), "iter")}:
+                return None
+            clo = [x for x in o.of_operand(t["args"][1]) if x[0] == "closure"]
+            if len(clo) != 1:
+                return None
+            cb = lib.fn(clo[0][1])
+            if cb is None:
+                return None
+            r = Origins(cb, lib).of_local(0)
+            if len(r) != 1:
+                return None
+            e = next(iter(r))
+            if not (e[0] == "bin" and e[1] == "Eq" and ("field", ("param", 2), "1") in (e[2], e[3])):
+                return None
+            k = e[3] if e[2] == ("field", ("param", 2), "1") else e[2]
+            if k[0] == "const" and isinstance(k[1], int):
+                key = chr(k[1])
+            elif k[0] == "field" and k[1] == ("closure_env",) and k[2].isdigit() and int(k[2]) < len(clo[0][2]) and len(clo[0][2][int(k[2])]) == 1:
+                key = next(iter(clo[0][2][int(k[2])]))
+            else:
+                return None
+            sites[bb] = key
+        elif c in ("std::iter::Iterator::next",) or c.endswith("Peekable::<I>::peek") or c.endswith("Peekable::<I>::next_if_eq"):
+            return None
+    if not sites:
+        return None
+    out = {}
+    for scen in list(dict.fromkeys(sites.values())) + ["<other>"]:
+        def answer(t, scen=scen):
+            # t: the next_if call term; Some exactly when its key is the scenario's character
+            return t[0] == "call" and t[1].endswith("Peekable::<I>::next_if") and sites.get(t[3]) == scen
+
+        def atom(t, scen=scen):
+            if t[0] == "discr" and t[1][0] == "call" and t[1][1].endswith("Peekable::<I>::next_if"):
+                return "Some" if answer(t[1]) else "None"
+            return None
+
+        def call(t, argvals, scen=scen):
+            if t[1] in ("std::option::Option::<T>::is_some", "std::option::Option::<T>::is_none") and len(t[2]) == 1 and len(t[2][0]) == 1:
+                x = next(iter(t[2][0]))
+                if x[0] == "call" and x[1].endswith("Peekable::<I>::next_if"):
+                    v = int(answer(x))
+                    return v if t[1].endswith("is_some") else 1 - v
+            return None
+        w = Walker(b, o, atom=atom, call=call)
+        res = set()
+        try:
+            for path, leaf in w.walk():
+                # an earlier next_if that answered Some has consumed the character: a later one on the same path sees the
+                # one after it — only the first Some on a path is meaningful, and the scanners return right after it
+                res |= set(w.result_on_path(path))
+        except Undecided:
+            return None
+        out[scen] = res
+    return out
 
 
 def peeked_char_table(lib, b, table, default):
